@@ -29,9 +29,9 @@ def gen_item(rng, zalloc, feats):
     shape = rng.choice(["none", "none", "zid", "zid", "mdate+zid", "ldate", "mdate"])
     zid = mdate = ldate = None
     if shape in ("zid", "mdate+zid"):
-        zid = zalloc.fresh()
+        zid = zalloc.fresh(dt.date(rng.choice([2000, 2001, 2024, 2024, 2025, 2068, 2069, 2070, 2099, rng.randint(2000, 2099)]), rng.randint(1, 12), rng.randint(1, 28)))
     if shape in ("mdate+zid", "mdate"):
-        mdate = "%02d%02d%02d" % (rng.randint(20, 29), rng.randint(1, 12), rng.randint(1, 28))
+        mdate = "%02d%02d%02d" % (rng.choice([0, 24, 24, 68, 69, 99, rng.randint(0, 99)]), rng.randint(1, 12), rng.randint(1, 28))
     if shape == "ldate":
         ldate = "%04d-%02d-%02d" % (rng.randint(2000, 2150), rng.randint(1, 12), rng.randint(1, 28))
     feats.add("identity=" + shape)
